@@ -207,7 +207,13 @@ export class RangeListManager {
       if (needUpdate) {
         updatePathTree = new Array(newRawKeys.length)
         for (let i = 0; i < newRawKeys.length; i += 1) {
-          const k = newRawKeys[i]!
+          // (the shared-key maps are keyed by the key as the item has it, not by the key made unique)
+          let k = newRawKeys[i]!
+          if (oldSharedKeyMap !== undefined || newSharedKeyMap !== undefined) {
+            const item = items[i] as { [k: string]: unknown } | undefined
+            const keyField = keyName === '*this' ? item : item?.[keyName]
+            k = keyField !== undefined && keyField !== null ? String(keyField) : ''
+          }
           if (oldSharedKeyMap?.[k] !== undefined || newSharedKeyMap?.[k] !== undefined) {
             updatePathTree[i] = true
           } else {
